@@ -5,6 +5,8 @@ cd /repo || exit 9
 if [ -n "$(git status --porcelain)" ]; then echo "REPO-NOT-CLEAN"; exit 7; fi
 if ! git apply --check "$P" 2>/dev/null; then echo "PATCH-DOES-NOT-APPLY $P"; exit 8; fi
 git apply "$P"
+trap 'git -C /repo checkout -- .' EXIT
+trap "" PIPE
 for prop in "$@"; do
   out=$(cd /verif && /venv/bin/python run.py $prop --tier quick 2>&1); rc=$?
   echo "== $prop exit=$rc"; echo "$out" | grep -E "VIOLATION|ANALYSIS-ERROR|^  prettyprinter" | cut -c1-400 | head -8
